@@ -173,6 +173,23 @@ def check_c01_c02(c, result):
         c.tie(tq5, res5, ip5, model5, result)
         oracle(c, tq5, res5, model5, result, c.files, k5)
         c.stats['mixed_mechanism_queries'] = len(tq5)
+    # (2d) string literals with multi-byte characters in conditions that are TRUE for (almost) every entity, with and
+    # without predicates: a condition cut or re-encoded wrongly loses every match
+    tq7, k7 = [], {}
+    for i, word in enumerate(['café', '日本', 'naïve ü', '😀', 'é', 'ü' * 40, 'a\u00a0b'] if kinds2 else []):
+        kq = kinds2[i % len(kinds2)]
+        accq = querygen.KINDS[kq][0][0]
+        forms = ['x.%s() != %s' % (accq, querygen.lit(word)), '!(x.%s() == %s) || x.%s() == %s' % (accq, querygen.lit(word), accq, querygen.lit(word + 'z')),
+                 '!(x.%s() in [%s, "alpha"])' % (accq, querygen.lit(word))]
+        tq7.append(('u%d' % i, 'FROM %s AS x WHERE %s SELECT x.%s()' % (kq, forms[i % 3], accq)))
+        tq7.append(('up%d' % i, 'predicate ne(%s y) { y.%s() != %s } FROM %s AS x WHERE ne(x) SELECT x.%s()' % (kq, accq, querygen.lit(word), kq, accq)))
+        k7['u%d' % i] = k7['up%d' % i] = 1
+    if tq7:
+        res7, ip7, _ = c.run(tq7)
+        model7 = c.model(tq7)
+        c.tie(tq7, res7, ip7, model7, result)
+        oracle(c, tq7, res7, model7, result, c.files, k7)
+        c.stats['non_ascii_literal_queries'] = len(tq7)
     # (2c) three FROM entities joined by comparisons BETWEEN entities, written in every order relative to FROM
     # (what a per-entity pre-filter or a join planner has to get right); the three least populous kinds
     bykind0 = Counter(engine.hexs(n['type']) for n in c.nodes)
